@@ -140,7 +140,7 @@ def apply_directives(body, directives, unit):
             m2 = re.fullmatch(r'\s*"((?:[^"\\]|\\.)*)"\s*\.\.\s*"((?:[^"\\]|\\.)*)"\s*', val)
             if not m2:
                 raise TemplateError(f"bad frag directive: {val}")
-            body.fragment(m2.group(1), m2.group(2))
+            body.fragment(m2.group(1).replace('\\"', '"'), m2.group(2).replace('\\"', '"'))
             continue
         if key in ("tail.before", "tail.bind"):
             from extract import stmt_spans
